@@ -76,11 +76,8 @@ func (h *NFSProcedureHandler) HandleCall(call *RPCCall, body io.Reader, authCtx 
 	// Acquire policy read lock. TryRLock fails if a policy update (Lock)
 	// is in progress, causing us to return JUKEBOX so clients retry.
 	if !handler.policyRWMu.TryRLock() {
-		// Policy drain in progress -- return NFSERR_JUKEBOX
-		var buf bytes.Buffer
-		xdrEncodeUint32(&buf, NFSERR_JUKEBOX)
-		reply.Data = buf.Bytes()
-		return reply, nil
+		// Policy drain in progress -- tell the client to retry
+		return busyReply(call, reply), nil
 	}
 	// DO NOT defer RUnlock here -- the goroutine owns the lock so that
 	// drain-and-swap blocks until the goroutine's filesystem work finishes,
@@ -179,6 +176,65 @@ func (h *NFSProcedureHandler) HandleCall(call *RPCCall, body io.Reader, authCtx 
 
 // nfsErrorReply creates an error response with the given NFS status code.
 // Used for procedures that need only the status (e.g. GETATTR).
+// busyReply answers a call that arrives while a policy change is draining the
+// requests in flight. No handler runs, but the client still has to get a reply
+// it can decode: the "try again later" status inside the failure result of the
+// procedure it called (RFC 1813), or the equivalent for MOUNT (RFC 1813
+// appendix I). Procedures without a status are answered as usual: their
+// results do not depend on the policy.
+func busyReply(call *RPCCall, reply *RPCReply) *RPCReply {
+	switch call.Header.Program {
+	case NFS_PROGRAM:
+		if call.Header.Version != NFS_V3 {
+			reply.AcceptStatus = PROG_MISMATCH
+			return reply
+		}
+		switch call.Header.Procedure {
+		case NFSPROC3_NULL:
+			return reply
+		case NFSPROC3_GETATTR:
+			return nfsErrorReply(reply, NFSERR_JUKEBOX)
+		case NFSPROC3_LOOKUP, NFSPROC3_ACCESS, NFSPROC3_READLINK, NFSPROC3_READ, NFSPROC3_READDIR,
+			NFSPROC3_READDIRPLUS, NFSPROC3_FSSTAT, NFSPROC3_FSINFO, NFSPROC3_PATHCONF:
+			return nfsErrorWithPostOp(reply, NFSERR_JUKEBOX)
+		case NFSPROC3_SETATTR, NFSPROC3_WRITE, NFSPROC3_CREATE, NFSPROC3_MKDIR, NFSPROC3_SYMLINK,
+			NFSPROC3_MKNOD, NFSPROC3_REMOVE, NFSPROC3_RMDIR, NFSPROC3_COMMIT:
+			return nfsErrorWithWcc(reply, NFSERR_JUKEBOX)
+		case NFSPROC3_RENAME:
+			return nfsErrorWithDoubleWcc(reply, NFSERR_JUKEBOX)
+		case NFSPROC3_LINK:
+			return nfsErrorWithPostOpAndWcc(reply, NFSERR_JUKEBOX)
+		default:
+			reply.AcceptStatus = PROC_UNAVAIL
+			return reply
+		}
+	case MOUNT_PROGRAM:
+		if call.Header.Version != 1 && call.Header.Version != MOUNT_V3 {
+			reply.AcceptStatus = PROG_MISMATCH
+			return reply
+		}
+		var buf bytes.Buffer
+		switch call.Header.Procedure {
+		case 0, 3, 4: // NULL, UMNT, UMNTALL: void results
+			return reply
+		case 1: // MNT
+			xdrEncodeUint32(&buf, 10006) // MNT3ERR_SERVERFAULT, as when rate limited
+		case 2: // DUMP
+			xdrEncodeUint32(&buf, 0)
+		case 5: // EXPORT
+			encodeExportList(&buf)
+		default:
+			reply.AcceptStatus = PROC_UNAVAIL
+			return reply
+		}
+		reply.Data = buf.Bytes()
+		return reply
+	default:
+		reply.AcceptStatus = PROG_UNAVAIL
+		return reply
+	}
+}
+
 func nfsErrorReply(reply *RPCReply, status uint32) *RPCReply {
 	var buf bytes.Buffer
 	xdrEncodeUint32(&buf, status)
